@@ -31,6 +31,10 @@ enum Op {
     TryFromA,
     /// `ScannerBuilder::new().add_patterns(..).build()`: the simple builder (shares the cache)
     SimpleBuild,
+    /// deeply nested patterns (40 groups), outside the cache lock: `Scanner::try_from` and
+    /// `build_uncached` of two different configurations
+    TryFromDeep,
+    UncachedDeep2,
 }
 
 fn modes_a() -> Vec<ScannerMode> {
@@ -76,6 +80,11 @@ fn peek_l(sc: &Scanner) -> Vec<(usize, usize, usize)> {
     v
 }
 
+fn modes_deep(inner: &str, tt: usize) -> Vec<ScannerMode> {
+    let p = format!("{}{inner}{}", "(".repeat(40), ")".repeat(40));
+    vec![ScannerMode::new("DEEP", vec![Pattern::new(p, tt), Pattern::new("[ab1]".into(), tt + 1)], vec![])]
+}
+
 fn modes_bad() -> Vec<ScannerMode> {
     vec![ScannerMode::new("INITIAL", vec![Pattern::new("a".into(), 0), Pattern::new("(?i)b".into(), 1)], vec![])]
 }
@@ -112,6 +121,8 @@ fn peek(sc: &Scanner) -> Vec<(usize, usize, usize)> {
 
 fn run_op(op: Op, shared: &Scanner, shared_l: Option<&Scanner>) -> Obs {
     match op {
+        Op::TryFromDeep => Scanner::try_from(modes_deep("a+", 7)).map(|s| scan(&s)).map_err(|_| "err".to_string()),
+        Op::UncachedDeep2 => ScannerBuilder::new().add_scanner_modes(&modes_deep("b|É", 3)).build_uncached().map(|s| scan(&s)).map_err(|_| "err".to_string()),
         Op::TryFromA => Scanner::try_from(modes_a()).map(|s| scan(&s)).map_err(|_| "err".to_string()),
         Op::SimpleBuild => ScannerBuilder::new().add_patterns(["a", "b+", "[^ab]"]).build().map(|s| scan(&s)).map_err(|_| "err".to_string()),
         Op::ScanL => Ok(scan_l(shared_l.expect("L is built when a script uses it"), INPUT_L)),
@@ -138,6 +149,8 @@ fn expected(op: Op) -> Obs {
         Op::ScanShared => Ok(scan(&unc(modes_a()).unwrap())),
         Op::ScanShared2 => Ok(scan2(&unc(modes_a()).unwrap())),
         Op::PeekShared => Ok(peek(&unc(modes_a()).unwrap())),
+        Op::TryFromDeep => unc(modes_deep("a+", 7)).map(|s| scan(&s)).map_err(|_| "err".to_string()),
+        Op::UncachedDeep2 => unc(modes_deep("b|É", 3)).map(|s| scan(&s)).map_err(|_| "err".to_string()),
         Op::TryFromA => unc(modes_a()).map(|s| scan(&s)).map_err(|_| "err".to_string()),
         Op::SimpleBuild => unc(vec![ScannerMode::new("INITIAL", vec![Pattern::new("a".into(), 0), Pattern::new("b+".into(), 1), Pattern::new("[^ab]".into(), 2)], vec![])]).map(|s| scan(&s)).map_err(|_| "err".to_string()),
         Op::ScanL => Ok(scan_l(&unc(modes_l()).unwrap(), INPUT_L)),
@@ -168,11 +181,22 @@ fn explore(scripts: &[Vec<Op>], bound: Option<usize>, max_branches: usize, budge
         let (o, sc) = (out.clone(), scripts.to_vec());
         let r = std::panic::catch_unwind(std::panic::AssertUnwindSafe(|| {
             loom::model(move || {
-                *o.lock().unwrap() = sc.iter().map(|s| s.iter().map(|op| expected(*op)).collect()).collect();
+                // (a spawned thread: loom's coroutines have small stacks by default, deeply nested
+                // patterns recurse)
+                let (o, sc) = (o.clone(), sc.clone());
+                thread::Builder::new()
+                    .stack_size(1 << 23)
+                    .spawn(move || {
+                        *o.lock().unwrap() = sc.iter().map(|s| s.iter().map(|op| expected(*op)).collect()).collect();
+                    })
+                    .unwrap()
+                    .join()
+                    .unwrap();
             })
         }));
-        if r.is_err() {
-            return HarnessResult { executions: 1, outcomes: 1, violation: Some("the sequential (single-threaded) run of the operations panicked".into()), capped: false };
+        if let Err(e) = r {
+            let msg = if let Some(s) = e.downcast_ref::<&str>() { s.to_string() } else if let Some(s) = e.downcast_ref::<String>() { s.clone() } else { "?".into() };
+            return HarnessResult { executions: 1, outcomes: 1, violation: Some(format!("the sequential (single-threaded) run of the operations panicked: {msg}")), capped: false };
         }
         let v = out.lock().unwrap().clone();
         v
@@ -225,7 +249,7 @@ fn explore(scripts: &[Vec<Op>], bound: Option<usize>, max_branches: usize, budge
                 .map(|script| {
                     let shared = shared.clone();
                     let shared_l = shared_l.clone();
-                    thread::spawn(move || {
+                    thread::Builder::new().stack_size(1 << 23).spawn(move || {
                         let mut obs = vec![];
                         for op in script {
                             let r = run_op(op, &shared, shared_l.as_deref());
@@ -237,6 +261,7 @@ fn explore(scripts: &[Vec<Op>], bound: Option<usize>, max_branches: usize, budge
                         }
                         obs
                     })
+                    .expect("spawn")
                 })
                 .collect();
             let results: Vec<Vec<(Obs, usize)>> = hs.into_iter().map(|h| h.join().expect("thread panicked")).collect();
@@ -299,7 +324,9 @@ fn main() {
     if prop != "C14" {
         machinery("loomcheck only knows C14");
     }
-    std::panic::set_hook(Box::new(|_| {}));
+    if std::env::var("VERIF_C14_DEBUG").is_err() {
+        std::panic::set_hook(Box::new(|_| {}));
+    }
     let mut run = Run::new("C14", tier);
     let mut viol = ViolAcc::default();
     let probe = sendsync_probe(&mut viol);
@@ -352,6 +379,16 @@ fn main() {
         bodies.push(vec![vec![a], vec![Op::BuildAPrime], vec![Op::BuildBad]]);
         bodies.push(vec![vec![a], vec![a], vec![Op::BuildB]]);
         bodies.push(vec![vec![a, a], vec![Op::BuildAPrime, Op::BuildB]]);
+    }
+    // builds that do not go through the cache lock at all (deeply nested patterns, different
+    // configurations): whatever they share is shared without that lock
+    for body in [
+        vec![vec![Op::TryFromDeep], vec![Op::UncachedDeep2]],
+        vec![vec![Op::TryFromDeep], vec![Op::TryFromDeep]],
+        vec![vec![Op::TryFromDeep, Op::UncachedDeep2], vec![Op::UncachedDeep2, Op::TryFromDeep]],
+        vec![vec![Op::TryFromDeep], vec![Op::UncachedDeep2], vec![Op::BuildA]],
+    ] {
+        bodies.push(body);
     }
     if let Ok(f) = std::env::var("VERIF_C14_BODY") {
         // debugging aid: only the bodies whose Debug text contains the given string
